@@ -21,6 +21,7 @@ func runC15(r *engine.Run) {
 	r.Rule("BOUNDS", "every index expression, slice expression, fixed-size decode destination and fixed-width read in the decoder closure (CreateNode, the node Decode methods, OriginTracker.Read, wmpt.DeserializeNode, Deserialize, deserializeTrie, VerifyBlockProof, verifyProof and the Serialize/CalcHash/Encode they reach) is discharged by a guard that holds on every feasible path: constant index within a fixed array, loop variable under a constant bound <= array length, index under a dominating i < len(x), index/slice bound returned by bytes.IndexByte under a dominating idx < 0 -> return, constant slice bounds under a dominating len(x) >= k (or == k), hex.Decode into n bytes under len(src) <= 2n; anything else is reported")
 	r.Rule("NO-PANIC", "no explicit panic is reachable from a decoder entry, except three named ones whose precondition is established structurally")
 	r.Rule("NILWIRE", "every pointer decoded from the wire (elements of PersistTrie.Pairs, the five alternatives of PersistNodeBase) is dereferenced only on paths where it tested non-nil (CBOR null decodes to a nil pointer)")
+	r.Rule("NILIFACE", "in the decoder closure no possibly-nil pointer is converted to an interface (a typed nil inside an interface defeats the `== nil` guards of the encoders, which then dereference it)")
 	r.Rule("ORDER-progress", "each recursive call of verifyProof / deserializeTrie is dominated by the bounds test of the cursor and by its increment: the recursion consumes one proof element per call and terminates")
 	r.NotDec = append(r.NotDec, "behaviour of the CBOR and msgp libraries on hostile input (third-party code)")
 	entries := decoderEntries(r)
@@ -50,6 +51,7 @@ func runC15(r *engine.Run) {
 		nb += boundsIn(r, f)
 		noPanicIn(r, f, entries, g)
 		nilWireIn(r, f)
+		typedNilIn(r, f)
 	}
 	if nb < 20 {
 		r.Anchor("BOUNDS", fmt.Errorf("unresolved anchor: only %d index/slice sites in the decoder closure", nb))
@@ -830,4 +832,75 @@ func orderProgress(r *engine.Run) {
 			r.Anchor(rule, fmt.Errorf("unresolved anchor: recursion in %s", fn(f)))
 		}
 	}
+}
+
+// ---- NILIFACE ------------------------------------------------------------------
+
+// mayBeNilPtr: v is a pointer that is nil on some path (a nil constant, a
+// phi with a nil edge, or a load of a local that is only conditionally set).
+func mayBeNilPtr(v ssa.Value, depth int) bool {
+	if depth > 4 {
+		return false
+	}
+	switch x := v.(type) {
+	case *ssa.Const:
+		return x.Value == nil
+	case *ssa.Phi:
+		for _, e := range x.Edges {
+			if mayBeNilPtr(e, depth+1) {
+				return true
+			}
+		}
+	case *ssa.UnOp:
+		if x.Op == token.MUL {
+			if al, ok := x.X.(*ssa.Alloc); ok {
+				// local pointer variable: nil unless every path to the load stores a non-nil value
+				var stores []*ssa.Store
+				for _, ref := range engine.Referrers(al) {
+					if st, ok := ref.(*ssa.Store); ok && st.Addr == ssa.Value(al) {
+						stores = append(stores, st)
+					}
+				}
+				dominated := false
+				for _, st := range stores {
+					if engine.InstrDominates(st, x) && !mayBeNilPtr(st.Val, depth+1) {
+						dominated = true
+					}
+				}
+				return !dominated
+			}
+		}
+	}
+	return false
+}
+
+func typedNilIn(r *engine.Run, f *ssa.Function) {
+	const rule = "NILIFACE"
+	o := ord{}
+	engine.Instrs(f, func(in ssa.Instruction) {
+		mi, ok := in.(*ssa.MakeInterface)
+		if !ok {
+			return
+		}
+		if _, isPtr := mi.X.Type().Underlying().(*types.Pointer); !isPtr {
+			return
+		}
+		if _, isAlloc := mi.X.(*ssa.Alloc); isAlloc {
+			return
+		}
+		if !mayBeNilPtr(mi.X, 0) {
+			return
+		}
+		// a nil test of the pointer on every path makes it safe
+		facts, okf := engine.FactsOn(f, in.Block())
+		if okf {
+			k := engine.ValKey(mi.X)
+			for _, ft := range facts {
+				if ft.Kind == "eq" && !ft.Truth && (engine.ValKey(ft.A) == k && nilConst(ft.B) || engine.ValKey(ft.B) == k && nilConst(ft.A)) {
+					return
+				}
+			}
+		}
+		r.Fail(rule, o.next(fn(f)+"|typed nil"), r.P.Pos(in.Pos()), "a pointer that is nil on some path is stored into an interface: the value is non-nil as an interface, so the encoder's nil guard passes and it dereferences nil when the accepted node is re-encoded")
+	})
 }
